@@ -49,6 +49,11 @@ def error_table():
                 if data != "<absent>":
                     err["data"] = data
                 out.append(err)
+    # falsy / non-string messages are still "the message": reported verbatim
+    for code in (-32700, -32603, -32000, -31999, 0, 5, 1.5):
+        for msg in ("", None, 0, False, [], {}, 0.0, " ", "0"):
+            for extra in ({}, {"trace": "a trace"}, {"data": {"d": 1}}):
+                out.append(dict({"code": code, "message": msg}, **extra))
     out += [{"reason": "x"}, {"message": "only message"}, {"data": 1}, {"trace": "t"},
             {"reason": ""}, {"reason": None}, {"reason": ["a"]}, {"x": {"code": 1}},
             {"a": 1, "b": 2}, {"message": "m", "data": 5}, {"message": "m", "trace": "t", "data": None},
